@@ -107,6 +107,10 @@ func TestJSONOperators(t *testing.T) {
 		{`data#>>'{}' = 'x'`, `SQLNULL`, "N"},
 		{`data#>>'{}' = '3'`, `3`, "T"},
 		{`data#>>'{}' = 'false'`, `false`, "T"},
+		{`data#>>'{}' = '0'`, `-0`, "T"},
+		{`data#>>'{}' = '0.00'`, `-0.00`, "T"},
+		{`data#>>'{}' = '-12.5'`, `-1.25e1`, "T"},
+		{`data#>>'{}' = '1200'`, `1.2E+3`, "T"},
 		{`data#>>'{}' = '[1, 2]'`, `[1,2]`, "T"},
 		{`data #>> '{}' IN ('a', 'b')`, `"b"`, "T"},
 		// ::int
